@@ -1072,7 +1072,20 @@ def run(tier, replay=None):
                     s.quals = None
             elif kind == "bam-ref" and loc.snv_positions:
                 # the BAM was aligned to a reference that differs from the FASTA / SNV file at one SNV
-                p = r.choice(loc.snv_positions)
+                def covering(p_):
+                    return [s_ for s_ in S.sort_reads(contigs, specs) if s_.contig == "c1" and has_md(s_)
+                            and any(rp == p_ for _, rp in S.aligned_pairs(s_))]
+                if i % 12 >= 6:
+                    # (this variant needs an SNV that two alignments with different read names cover: draw cases until one has it)
+                    for _ in range(40):
+                        good = [p_ for p_ in loc.snv_positions if len({s_.qname for s_ in covering(p_)}) >= 2]
+                        if good:
+                            break
+                        contigs, loc, rgs, specs, thr = hand_case(r)
+                        md_ref = contigs
+                p = r.choice([p_ for p_ in loc.snv_positions if len({s_.qname for s_ in covering(p_)}) >= 2] or loc.snv_positions) \
+                    if loc.snv_positions else None
+            if kind == "bam-ref" and loc.snv_positions:
                 seq = contigs["c1"]
                 md_ref = dict(contigs)
                 md_ref["c1"] = seq[:p] + r.choice([b for b in S.BASES if b != seq[p]]) + seq[p + 1:]
